@@ -24,7 +24,7 @@ def loader_obligations(prop):
     for k, nm in KINDS.items():
         obs.append(dict(id="%s.deser.%s" % (prop, nm), prop=prop, harness=LOADER, entry="h_deser", annotate=LANN,
                         tier="thorough" if nm == "functions" else "quick",   # the functions arm needs > 25 min
-                        defines={"VERIF_KIND": k}, enforce="nvm_deserialize", replace=LREPL, loops=True, unwind=5,
+                        defines={"VERIF_KIND": k}, enforce="nvm_deserialize", replace=LREPL, loops=True, unwind=6 if nm == "strings" else 5,
                         object_bits=10, strength="X", timeout=1500 if nm != "functions" else 5400, mem_gb=10, weight=100,
                         functions=["nvm_deserialize", "le_read_u32", "le_read_u16", "nvm_validate_header"],
                         must_have=[r"nvm_deserialize\.postcondition", r"loop_invariant_step", r"decreases",
@@ -146,7 +146,7 @@ def obligations(repo):
     for part in ["DECODE", "JMP", "MATCH", "CALL", "STR", "EXTERN", "LOCAL"]:
         obs.append(dict(id="C13.verify.function." + part.lower(), prop="C13", harness=VER, entry="h_function", annotate=VANN, tier="thorough",
                         defines={"VERIF_IOK": "IOK_" + part, "VERIF_IOKN": part},
-                        enforce="verify_function", replace=["isa_decode", "isa_get_info"], loops=True, unwind=5, strength="U",
+                        enforce="verify_function", replace=["isa_decode", "isa_get_info"], loops=True, unwind=5, unwindset=["spec_le.0:9"], strength="U",
                         functions=["verify_function"], timeout=1200, weight=20,
                         must_have=[r"verify_function\.postcondition", r"loop_invariant_step", r"decreases"],
                         min_checks=20))
